@@ -311,7 +311,48 @@ func runJSONDocs(c *runCtx) {
 	}
 }
 
+// deep but legal nesting (the property promises depth up to 4096)
+func runJSONDeep(c *runCtx) {
+	type dd struct {
+		shape string
+		depth int
+	}
+	cases := []dd{{"obj", 2049}, {"arr", 4096}, {"mixed", 3000}, {"obj", 4096}}
+	if c.tier != "thorough" {
+		cases = cases[:3]
+	}
+	for _, d := range cases {
+		x := closed(d.shape, d.depth)
+		if !stdjson.Valid(x) {
+			c.stats.Kinds["deep-generator-invalid"]++
+			continue
+		}
+		for ci, lim := range []uint32{0, uint32(len(x) / 2)} {
+			if !c.mine() {
+				continue
+			}
+			hdr := header(x, lim)
+			v := "0"
+			if magic.JSON(hdr, lim) {
+				v = "1"
+			}
+			kind := "valid"
+			if ci == 1 {
+				kind = "valid-cut"
+			}
+			c.stats.note("deep-"+d.shape, []byte(fmt.Sprintf("%s:%d:%d", d.shape, d.depth, ci)), len(hdr), true)
+			c.stats.sample(fmt.Sprintf("deep %s document, depth %d, %d bytes, limit %d -> JSON=%s", d.shape, d.depth, len(hdr), lim, v))
+			c.emit("jdeep", hx(hdr), strconv.Itoa(int(lim)), v, fmt.Sprintf("%s depth=%d %s", d.shape, d.depth, kind), kind)
+		}
+	}
+}
+
 func init() {
+	commands["run-json-deep"] = func(args []string) {
+		c := parseRunArgs(args)
+		runJSONDeep(c)
+		c.finish()
+	}
 	commands["run-json-exh"] = func(args []string) {
 		c := parseRunArgs(args)
 		n := 5
